@@ -340,3 +340,27 @@ PLANS["C16"] = {
                 need("roundtrip:default", 50000), need("roundtrip:hex", 5000), need("roundtrip:bin", 5000), need_set("error_kinds", 9),
                 need_set("roundtrip_value_kinds", 4)],
 }
+
+PLANS["C17"] = {
+    "jobs": {
+        "quick": [("", "release", 400000), ("", "dev", 40000)],
+        "thorough": [("", "release", 16000000), ("", "dev", 1600000)],
+    },
+    "rule": "a case plants one failing token (10 build-time kinds: unknown words incl. multi-byte names, bad literals, unbalanced "
+            "closers, store to an unknown variable; 10 run-time kinds: division, type, out-of-bounds, assert, assert-eq, error, rem, "
+            "loop index outside a loop) in one of 14 scenarios (top level, loop, if, word called from the same source, from a later "
+            "source, through a chain of 2..5 calls, meta block, word called inside a meta block, included file, first token after an "
+            "include, text injected with ~) and the token after it, the same text submitted 2..4 times, a second failing source after a "
+            "first, inside a half-built definition), preceded by 0..3 earlier sources (one in four rejected) and by filler with LF / "
+            "CRLF / tabs / blank lines / multi-byte text / line and multi-line comments. last_err_location() must name the source "
+            "(by the monitor's own count of interned sources, or the include path), the token's byte offset and text, line and column "
+            "in characters, the quoted line; pretty_error() must show source:line:col and the line; debug map and code have equal "
+            "length. distinct = distinct (scenario, token, phase, source text)",
+    "assumptions": ["lines are ended by LF or CRLF (lone CR is not generated); columns count characters; tabs count as one character",
+                    "when another error fires before the planted one (possible in a few scenario/token combinations) the case is counted, not judged"],
+    "require": [need("locations_confirmed", 300000), need_set("error_classes", 9), need("with_crlf_before_token", 50000),
+                need("with_multibyte_on_the_same_line_before_token", 20000), need("with_tab_before_token", 50000)] +
+               [need("scenario:%s" % s, 10000) for s in ["top", "loop", "if", "called-word-same-source", "called-word-earlier-source", "deep-call-chain",
+                                                       "meta-block", "word-in-meta", "included-file", "after-include", "injected-text",
+                                                       "identical-sources", "second-error", "definition-body-build-error"]],
+}
